@@ -216,6 +216,28 @@ func c05EventsInOrder(c *Ctx, k *core) {
 					after = true
 				}
 			}
+			// or: a refresh of the slot with the current version - a non-blocking send of the config just loaded with
+			// ViewVersion in a function that only runs on the monitor goroutine, after taking the parked value out
+			if !okS && f.Parent() == nil && !isAPI(f) && !op.Blocking && k.vvCall(op.Val, 0) != nil {
+				cg := w.callGraph()
+				roots, others := cg.goroutineRootsOf(f)
+				onlyMonitor := len(others) == 0 && len(roots) == 1
+				for r := range roots {
+					if r != k.monitor {
+						onlyMonitor = false
+					}
+				}
+				drained := false
+				for _, op2 := range chanOps(f) {
+					if !op2.Send && chanIsField(op2.Chan, k.fUpdates) && op2.Sel != nil && domI(op2.Sel, op.Instr) {
+						drained = true
+					}
+				}
+				if onlyMonitor && drained {
+					c.ok("events-in-order", relName(f)+"#events-refresh", op.Instr.Pos(), "the monitor goroutine swaps a parked config for the current version (loaded in the same function): never older than what was parked")
+					continue
+				}
+			}
 			c.check(okS && after, "events-in-order", relName(f)+"#events-send", op.Instr.Pos(), "the Events send is executed by the storing function itself, after the store",
 				"a send on the Events channel is executed by "+relName(f)+", which is not the storing function of the monitor goroutine (or precedes the store): consumers can receive versions out of order")
 		}
